@@ -45,6 +45,9 @@ const WORDS: [&str; 24] = [
 ];
 
 fn gen_hay(rng: &mut StdRng) -> String {
+    if rng.gen_bool(0.04) {
+        return String::new();
+    }
     let n = rng.gen_range(1..5);
     let mut s = String::new();
     for i in 0..n {
@@ -66,6 +69,8 @@ fn gen_pattern(rng: &mut StdRng, hay: &str) -> String {
     let n = rng.gen_range(0..5);
     let hc: Vec<char> = hay.chars().collect();
     let mut parts = Vec::new();
+    // exclusion-only queries are a case of their own: they accept text the atoms never touch (also empty text)
+    let only_negative = rng.gen_bool(0.12);
     for _ in 0..n {
         let mut w: String = if rng.gen_bool(0.7) && !hc.is_empty() {
             // a (sub)sequence of the haystack
@@ -81,7 +86,11 @@ fn gen_pattern(rng: &mut StdRng, hay: &str) -> String {
         if rng.gen_bool(0.15) {
             w = w.to_uppercase();
         }
-        let pre = *["", "", "", "!", "^", "'", "!^", "!'"].choose(rng).unwrap();
+        let pre = if only_negative {
+            *["!", "!", "!^", "!'"].choose(rng).unwrap()
+        } else {
+            *["", "", "", "!", "^", "'", "!^", "!'"].choose(rng).unwrap()
+        };
         let post = *["", "", "", "$"].choose(rng).unwrap();
         parts.push(format!("{}{}{}", pre, w, post));
     }
@@ -171,7 +180,17 @@ pub fn record(id: u64, rng: &mut StdRng, shared: &mut Matcher, config: &Config) 
     u32s(&mut out, pind);
     // multi-column
     let ncols = rng.gen_range(1..=3);
-    let col_hays: Vec<String> = (0..ncols).map(|c| if c == 0 { hay.clone() } else { gen_hay(rng) }).collect();
+    let col_hays: Vec<String> = (0..ncols)
+        .map(|c| {
+            if c == 0 {
+                hay.clone()
+            } else if rng.gen_bool(0.2) {
+                String::new()
+            } else {
+                gen_hay(rng)
+            }
+        })
+        .collect();
     let mut mp = MultiPattern::new(ncols);
     for c in 0..ncols {
         mp.reparse(c, &text, case, norm, false);
